@@ -227,6 +227,16 @@ impl MT101 {
             });
         }
 
+        // Sequence B is mandatory: without a transaction the message is incomplete
+        if transactions.is_empty() {
+            return Err(crate::errors::ParseError::MissingRequiredField {
+                field_tag: "21".to_string(),
+                field_name: "21".to_string(),
+                message_type: "101".to_string(),
+                position_in_block4: Some(parser.position()),
+            });
+        }
+
         // Verify all content is consumed
         verify_parser_complete(&parser)?;
 
